@@ -10,7 +10,7 @@ import (
 )
 
 func init() {
-	probeNames["C08"] = []string{"fault_in_commit", "fault_in_data_write", "fault_in_header_write", "fault_in_first_sync", "fault_in_final_sync", "fault_outside_commit", "fault_during_open", "commit_failed", "commit_ok", "liveness_checked", "liveness_second_attempt", "durability_checked", "final_state_is_later_attempt", "short_write", "burst_spans_transactions", "reopen_with_maxsize_update", "shrink_release_under_fault", "grow_prealloc_under_fault", "stale_flush_write_failed_late"}
+	probeNames["C08"] = []string{"fault_in_commit", "fault_in_data_write", "fault_in_header_write", "fault_in_first_sync", "fault_in_final_sync", "fault_outside_commit", "fault_during_open", "commit_failed", "commit_ok", "liveness_checked", "liveness_second_attempt", "durability_checked", "final_state_is_later_attempt", "short_write", "burst_spans_transactions", "reopen_with_maxsize_update", "shrink_release_under_fault", "grow_prealloc_under_fault", "stale_flush_write_failed_late", "reopen_right_after_failed_commit"}
 	register(&PropDef{
 		ID: "C08", Level: "fault_enumeration", QuickSec: 55, ThoroSec: 1200,
 		Rule: "each run = one seeded txops history (<=10 transactions, incl. reopen) with a fault plan aimed at the I/O calls a fault-free dry run of the same seed performs: kind in {write error before effect, short write then error, sync error, truncate error, size error, mmap error, read error at open} x call index x burst in {1,2,3,until end of transaction}; a fault-free configuration of every seed runs first with the strict oracle. Oracles: no panic, no hang (scheduler deadlock detection), after every transaction a fresh read transaction sees exactly the last successfully committed model state, a commit that reported success is durable (durable-only image reopens to it), a commit during which one of its writes/syncs failed does not report success, once faults stopped a write transaction commits within 2 attempts, and after clean close+reopen the state is the last committed one or the complete state of a later attempt whose header write was issued. Non-trivial = at least one fault actually fired inside a transaction or an open; distinct = op list + fault plan + config + schedule hash.",
@@ -80,6 +80,9 @@ func c08Body(e *Env) {
 		cfg := DrawCfg(e.Rng("cfg"), 0)
 		cfg.NTx = 2 + rng.Intn(9)
 		cfg.Variant = rng.Intn(4) // 0: open-time faults too
+		if rng.Intn(6) == 0 {
+			cfg.SyncMode = 3 // SyncNone: no fsync at all; every oracle but durability applies
+		}
 		c.Cfg = &cfg
 	}
 	if c.Tasks == nil && c.Cfg.Variant == 3 && rng.Intn(2) == 0 {
@@ -173,11 +176,15 @@ func c08Body(e *Env) {
 		defer func() { lastCommitEnd = len(d.Log) }()
 		firedIn := 0
 		hdrWritten := false
+		failedBesidesFinalSync := "" // a failed call of this commit other than a sync issued after the header write
 		var firstSyncSeen bool
 		for i := rec.Begin; i < len(d.Log); i++ {
 			op := &d.Log[i]
 			if op.Err && (op.Kind == simdisk.OpWrite || op.Kind == simdisk.OpSync) {
 				firedIn++
+				if op.Kind == simdisk.OpWrite || !hdrWritten {
+					failedBesidesFinalSync = fmt.Sprintf("%v at offset %d (I/O #%d)", op.Kind, op.Off, i)
+				}
 				switch {
 				case op.Kind == simdisk.OpWrite && isHeaderWriteOff(op, cfg.PageSize):
 					e.Probe("fault_in_header_write")
@@ -219,12 +226,20 @@ func c08Body(e *Env) {
 				return
 			}
 		}
-		if err == nil {
+		if err == nil && cfg.SyncMode == 3 {
+			// SyncNone: nothing is ever synced, durability is not promised
+			laterAttempts = nil
+		} else if err == nil {
 			laterAttempts = nil
 			// durability: everything lost except what was synced
 			img := simdisk.DurableImage(d.Log, nil)
 			evalRecovered(e, "C08", r.Cfg, img, rec.State, nil, false, 0, fmt.Sprintf("durable content after Commit #%d returned success", rec.State.N))
 			e.Probe("durability_checked")
+		} else if hdrWritten && failedBesidesFinalSync != "" && staleFlushSince < 0 {
+			// the header of a commit is the last thing written: everything before it
+			// must have been written (and synced) successfully
+			e.Fail("C08", "header-written-by-failed-commit", "Commit #%d failed (%s failed) but its complete new header was written to the file: after a restart the file shows a transaction that was never completely written", rec.State.N, failedBesidesFinalSync)
+			return
 		} else if hdrWritten {
 			laterAttempts = append(laterAttempts, rec.State)
 		}
@@ -306,6 +321,7 @@ func c08Body(e *Env) {
 	// without faults), then the file shows the last committed state or the
 	// complete state of a later attempt whose header write was issued
 	reopenRng := e.Rng("c08reopen")
+	immRng := e.Rng("c08immediate")
 	shrunk := false
 	reopen := func(final bool) {
 		var err error
@@ -480,6 +496,12 @@ func c08Body(e *Env) {
 				if f.Burst >= 1000 && firedTotal() > 0 {
 					d.ClearFaults()
 				}
+			}
+			// sometimes the process stops right after a failed commit: close and
+			// reopen before any later commit could overwrite what the failed one left
+			if op.K == "commit" && r.LastEnd == "commit-failed" && firedTotal() > firedAtBegin && !d.FaultsPending() && immRng.Intn(3) == 0 && !e.Failed() {
+				e.Probe("reopen_right_after_failed_commit")
+				reopen(false)
 			}
 			live("after transaction")
 		case "reopen":
